@@ -560,6 +560,39 @@ pub fn run(cfg: &Config) -> i32 {
 	});
 	total.merge(rep);
 
+	// wide containers (60..300 children, beyond any chunk / inline size), nested one level
+	let rep = parallel(cfg.threads, 16, |i| {
+		let mut rep = Report::new();
+		let mut rng = Rng::new(seed).fork(0xc11d + i as u64);
+		let mut rd = Reader::new();
+		for n in [60usize, 63, 64, 65, 100, 127, 128, 129, 200, 257, 300] {
+			let inner = |rng: &mut Rng, j: usize| -> RVal {
+				match j % 5 {
+					0 => RVal::Num(j.to_string()),
+					1 => RVal::Arr(vec![RVal::Null, RVal::Bool(true)]),
+					2 => RVal::Obj(vec![("k".into(), RVal::Num("1".into())), ("k".into(), RVal::Arr(vec![]))]),
+					3 => RVal::Str(gen::gen_string(rng)),
+					_ => RVal::Obj(vec![]),
+				}
+			};
+			let n = n + i % 3;
+			let arr = RVal::Arr((0..n).map(|j| inner(&mut rng, j)).collect());
+			let obj = RVal::Obj((0..n).map(|j| (if j % 7 == 0 { "dup".to_string() } else { format!("k{}", j) }, inner(&mut rng, j + 1))).collect());
+			for r in [arr.clone(), obj.clone(), RVal::Arr(vec![obj, arr])] {
+				let style = WriteStyle {
+					whitespace: rng.below(3) as u8,
+					escapes: 0,
+				};
+				let text = gen::write_doc(&mut rng, &r, &style);
+				rep.distinct_bytes(text.as_bytes());
+				navigate(&mut rep, &mut rd, "wide-containers", &text);
+			}
+			rep.max("widest_container", n as u64);
+		}
+		rep
+	});
+	total.merge(rep);
+
 	// every valid token document up to the bound (shared enumerator of the parser checks)
 	{
 		let flags = super::parsefam::Flags::default();
